@@ -52,6 +52,8 @@ struct C05Vis {
 				if(ov == 0) { v = src; } else if(ov == 1) { std::move(v) = src; } else if(ov == 8) { v = std::as_const(src); } else if(ov == 2) { v = std::move(src); } else { std::move(v) = std::move(src); }
 				check_image(K, m, snap, srcval);
 				if(ov == 0 || ov == 1 || ov == 8) { for(L i = 0; i < sn; ++i) if(!(sbase[i] == ssnap[std::size_t(i)])) violation(K + "source-modified", "copy assignment modified its source"); }
+				else if constexpr(!std::is_base_of_v<multi::static_array<ST, rank_of<decltype(src)>>, std::decay_t<decltype(src)>> && std::is_same_v<ST, T>) {  // std::move of a VIEW (not element_moved(), not an owning array): views are reference-like, the elements are copied and the source keeps its values
+					for(L i = 0; i < sn; ++i) if(!(sbase[i] == ssnap[std::size_t(i)])) { violation(K + "source-view-moved-from", "assignment from std::move(view) (a plain view, never element_moved()) left a source element moved-from / modified"); break; } count("move(view)-sources-checked"); }
 				else if constexpr(!std::is_arithmetic_v<ST>) { std::vector<char> in(std::size_t(sn), 0); for(L o : sm.off) in[std::size_t(o)] = 1;
 					for(L i = 0; i < sn; ++i) if(!in[std::size_t(i)] && !(sbase[i] == ssnap[std::size_t(i)])) violation(K + "moved-outside-source-view", "moving from a view modified a source element outside the view"); }
 			}); break; }
